@@ -495,9 +495,11 @@ def compile_one(job):
            "back": [], "skip": "", "raised": "none", "site": "", "detail": "", "nstates": 0}
     try:
         try:
-            with time_limit(20):
-                problem = build_ma(D)
-                MP = p_ma(problem)
+            def _build():
+                pb = build_ma(D)
+                return pb, p_ma(pb)
+
+            problem, MP = call_limited(_build, 30, 10)
         except ImplTimeout:
             rec["skip"] = "build-timeout"
             return rec
@@ -535,7 +537,7 @@ def compile_one(job):
         rec["qinit"] = init_vector(q, MQ)
         rec["nstates"] = nstates(MQ)
         try:
-            with time_limit(60):
+            with time_limit(120):
                 for g in ground_actions_ma(MQ):
                     ag = q.agent(g["agent"])
                     qa = ag.action(g["a"])
@@ -625,7 +627,7 @@ def judge(ctx, recs, label, workers=8):
     d = ctx.sub("judge-" + label)
     path = os.path.join(d, "batch.ndjson")
     tlc.write_ndjson(path, [{k: r[k] for k in SLIM} for r in recs])
-    res = tlc.run_tlc("MASem", CFG, d, env={"BATCH": path}, timeout=3000, workers=workers, heap="12g")
+    res = tlc.run_tlc("MASem", CFG, d, env={"BATCH": path}, timeout=6000, workers=workers, heap="12g")
     if res.error or res.violated:
         raise MachineryError("MASem failed: %s %s" % (res.violated, (res.error or "")[-3000:]))
     ctx.add_tlc("MASem-" + label, res)
@@ -634,9 +636,9 @@ def judge(ctx, recs, label, workers=8):
 
 def run(ctx):
     q = ctx.quick
-    per = 22 if q else 260
-    maxg = 8 if q else 10
-    cap_states = 1100 if q else 4200
+    per = 22 if q else 90
+    maxg = 8
+    cap_states = 1100 if q else 2100
     jobs = []
     cid = 0
     for cname in COMPILERS:
@@ -657,7 +659,9 @@ def run(ctx):
             raise MachineryError("harness error: %s" % r["detail"])
         if r["skip"]:
             s["skipped"] += 1
-            s.setdefault("skip-reasons", {}).setdefault(r["skip"].split(":")[0] + ":" + r["skip"].split(":")[1] if ":" in r["skip"] else r["skip"], 0)
+            why = ":".join(r["skip"].split(":")[:2])
+            s.setdefault("skip-reasons", {})
+            s["skip-reasons"][why] = s["skip-reasons"].get(why, 0) + 1
             continue
         if r["raised"] != "none":
             s["raised"] += 1
@@ -709,11 +713,18 @@ def run(ctx):
     judged = [r for r in batch if r["raised"] == "none"]
     ctx.cov["evaluations"] = sum(r["nstates"] * len([b for b in r["back"]]) for r in judged)
     ctx.cov["traces_validated_against_impl"] = len(judged)
-    ctx.cov["distinct_nontrivial"] = sum(
-        1 for r in judged
-        if len(r["back"]) > sum(len(ground_actions_ma({"agents": [a], "objects": r["MP"]["objects"], "types": r["MP"]["types"]})) for a in r["MP"]["agents"])
-        or len(r["qkeys"]) > len(r["pkeys"]))
-    ctx.cov["with_auxiliary_fluents"] = sum(1 for r in judged if len(r["qkeys"]) > len(r["pkeys"]))
+    def split(r):  # some original ground action has several variants
+        seen = [(b["pa"], tuple(x["o"] for x in b["pargs"])) for b in r["back"] if b["pa"]]
+        return len(set(seen)) < len(seen)
+
+    nsplit = {c: sum(1 for r in judged if r["comp"] == c and split(r)) for c in COMPILERS}
+    naux = sum(1 for r in judged if len(r["qkeys"]) > len(r["pkeys"]))
+    ctx.cov["distinct_nontrivial"] = sum(1 for r in judged if split(r) or len(r["qkeys"]) > len(r["pkeys"]))
+    ctx.cov["with_split_actions"] = nsplit
+    ctx.cov["with_auxiliary_fluents"] = naux
+    # vacuity: the run must contain split actions for both removers and the fake-goal mechanism
+    if min(nsplit.values()) == 0 or naux == 0:
+        raise MachineryError("vacuous corpus: split actions per compiler %r, compilations with auxiliary fluents %d" % (nsplit, naux))
     ctx.cov["exhaustive"] = True
     ctx.cov["rule"] = (
         "per compiler %d generated 2-agent problems (<= %d ground fluents, every 4th with object-valued fluents), compiled by "
@@ -732,3 +743,147 @@ def run(ctx):
         "Boolean and object-valued fluents over 2 objects, instantaneous actions; agent-specific goals are outside the removers' supported kind",
         "variants without effects may be dropped (DESIGN.md 7.1-8): counted as zone 'noop'",
     ]
+
+
+# ----------------------------------------------------------------------------------------
+# replay of one recorded violation; self-test of the binding (DESIGN.md 7.3)
+# ----------------------------------------------------------------------------------------
+def _fails(res):
+    out = {}
+    for p in res.printed:
+        if p and p[0] == "FAIL":
+            out.setdefault(p[1], set()).add(p[2])
+    return out
+
+
+def replay(ctx, doc):
+    d = doc["data"]
+    r = compile_one((1, d["description"], d["compiler"]))
+    if r["skip"]:
+        raise MachineryError("replay: %s" % r["skip"])
+    res = judge(ctx, [r], "replay")
+    fs = _fails(res).get(1, set())
+    for c in sorted(fs):
+        print("REPLAY property=C37 clause=%s compiler=%s" % (c, d["compiler"]))
+    print("replay: %d clause(s) violated" % len(fs))
+    return 1 if fs else 0
+
+
+def selftest(ctx):
+    """corrupt one recorded field at a time and show that MASem rejects the record with the expected clause"""
+    import copy
+
+    recs = []
+    for cname in COMPILERS:
+        g = MAGen(ctx.rng, cname, max_ground=5)
+        tries = 0
+        while tries < 200:
+            tries += 1
+            r = compile_one((len(recs) + 1, g.problem(), cname))
+            if r["skip"] or r["raised"] != "none":
+                continue
+            split = len({b["pa"] for b in r["back"] if b["pa"]}) < len([b for b in r["back"] if b["pa"]])
+            aux = len(r["qkeys"]) > len(r["pkeys"])
+            if split and (cname == "cerm" or aux):
+                recs.append(r)
+                break
+    if len(recs) != 2:
+        raise MachineryError("selftest: no suitable compilation generated")
+    # whether a missing reset of the fake-goal fluents shows depends on the problem (some action must
+    # falsify a goal disjunct): that corruption is tried on several compilations, one rejection suffices
+    more = []
+    tries = 0
+    while len(more) < 5 and tries < 400:
+        tries += 1
+        r = compile_one((100 + tries, g.problem(), "dcrm"))
+        if not r["skip"] and r["raised"] == "none" and len(r["qkeys"]) > len(r["pkeys"]):
+            more.append(r)
+    cases = []  # (record, expected clause or None)
+
+    def variant(base, expect, fn):
+        r = copy.deepcopy(base)
+        r["cid"] = len(cases) + 1
+        fn(r)
+        cases.append((r, expect))
+
+    for base in recs:
+        variant(base, None, lambda r: None)
+        pas = sorted({b["pa"] for b in base["back"] if b["pa"]})
+
+        def wrong_back(r):
+            row = next(b for b in r["back"] if b["pa"])
+            row["pa"] = row["pa"] + "_missing"
+        variant(base, "variant-maps-back-to-unknown-action", wrong_back)
+
+        def flip_init(r):
+            i = next(i for i, k in enumerate(r["qkeys"]) if k in r["pkeys"] and r["qinit"][i]["k"] == "b")
+            r["qinit"][i] = BV(not r["qinit"][i]["b"])
+        variant(base, "initial-state-differs", flip_init)
+
+        def drop_object(r):
+            r["MQ"]["objects"] = r["MQ"]["objects"] + [{"name": "extra", "type": "T"}]
+        variant(base, "objects-differ", drop_object)
+
+        def drop_goal(r):
+            r["MQ"]["goals"] = []
+        variant(base, "goal-compiled-holds-original-not", drop_goal)
+
+        def drop_effects(r):
+            for a in r["MQ"]["agents"]:
+                for act in a["actions"]:
+                    if any(b["qa"] == a["name"] + SEP + act["name"] and b["pa"] for b in r["back"]):
+                        act["effects"] = [e for e in act["effects"] if "fake" in e["f"]["name"]]
+        variant(base, "variant-successor-differs", drop_effects)
+
+        def drop_pre(r):
+            for a in r["MQ"]["agents"]:
+                for act in a["actions"]:
+                    act["pre"] = []
+        variant(base, "variant-applicable-original-not" if base["comp"] == "dcrm" else "several-variants-applicable", drop_pre)
+
+        def drop_variants(r):
+            keep = {}
+            for b in r["back"]:
+                if b["pa"]:
+                    keep.setdefault((b["pa"], tuple(x["o"] for x in b["pargs"])), b["qa"])
+            gone = {b["qa"] for b in r["back"] if b["pa"] and keep[(b["pa"], tuple(x["o"] for x in b["pargs"]))] != b["qa"]}
+            for a in r["MQ"]["agents"]:
+                a["actions"] = [act for act in a["actions"] if a["name"] + SEP + act["name"] not in gone]
+            r["back"] = [b for b in r["back"] if b["qa"] not in gone]
+        variant(base, "original-applicable-no-variant", drop_variants)
+
+        def raised(r):
+            r["raised"] = "SomeError"
+        variant(base, "compile-raises", raised)
+        if base["comp"] == "dcrm":
+            def no_reset(r):
+                for a in r["MQ"]["agents"]:
+                    for act in a["actions"]:
+                        if any(b["qa"] == a["name"] + SEP + act["name"] and b["pa"] for b in r["back"]):
+                            act["effects"] = [e for e in act["effects"] if "fake" not in e["f"]["name"]]
+            for m in [base] + more:
+                variant(m, "variant-leaves-aux-unjustified*", no_reset)
+
+            def aux_true(r):  # the auxiliary (fake-goal) actions can never fire
+                for a in r["MQ"]["agents"]:
+                    for act in a["actions"]:
+                        if not any(b["qa"] == a["name"] + SEP + act["name"] and b["pa"] for b in r["back"]):
+                            act["pre"] = [C(False)]
+            variant(base, "goal-original-holds-compiled-unreachable", aux_true)
+    res = judge(ctx, [c[0] for c in cases], "selftest")
+    got = _fails(res)
+    bad = 0
+    tolerated = {"dangling-fluent-in-compiled-action", "dangling-fluent-in-compiled-goal"}
+    anyof = any(e and e.endswith("*") and e[:-1] in got.get(r["cid"], set()) for r, e in cases)
+    for r, expect in cases:
+        fs = got.get(r["cid"], set())
+        if expect is None:
+            ok = not (fs - tolerated)
+        elif expect.endswith("*"):
+            ok = anyof
+        else:
+            ok = expect in fs
+        print("selftest %-4s %-45s -> %s %s" % (r["comp"], expect or "(uncorrupted)", "ok" if ok else "MISSED", sorted(fs - tolerated)))
+        bad += 0 if ok else 1
+    print("selftest: %d corrupted records, %d not rejected as expected" % (len(cases), bad))
+    return 0 if bad == 0 else 2
